@@ -59,6 +59,13 @@ LawChain(t, S) ==
     (t.op \in {"zoom", "bbox"} /\ t.src.op \in {"zoom", "bbox"}) =>
         Sem(t, S) = Sem([t EXCEPT !.src = t.src.src], S) \cap Sem(t.src, S)
 
+RECURSIVE Degenerate(_)
+Degenerate(t) ==
+    CASE t.op = "zoom" -> (t.min >= 0 /\ t.max >= 0 /\ t.min > t.max) \/ t.min > 31 \/ t.max > 31 \/ Degenerate(t.src)
+      [] t.op = "bbox" -> Degenerate(t.src)
+      [] t.op = "overlay" -> \E k \in 1..Len(t.srcs) : Degenerate(t.srcs[k])
+      [] OTHER -> FALSE
+
 (* from_debug generates a tile for EVERY coordinate, so its semantics is a predicate, not a finite set: a chain of
    filters over it has a tile at c iff every filter lets c pass.  Tile contents are identified by a hash of the bytes. *)
 RECURSIVE DebugHas(_, _)
@@ -69,7 +76,7 @@ DebugHas(t, c) ==
       [] t.op = "bbox" -> DContains(GeoSel(t.geo, c[1]), c[2], c[3]) /\ DebugHas(t.src, c)
 DebugFails(r) ==
     LET t == r.tree IN
-    Fails("build", r.built = 1) \cup
+    Fails("build", r.built = 1 \/ (Degenerate(t) /\ r.panic = 0)) \cup
     (IF r.built = 0 THEN {} ELSE
      Fails("declared", r.declared.tc = "none") \cup
      Fails("coverage", \A z \in 0..r.maxlevel : CovAt(r.cov, z) = CovOf(t, <<>>, z)) \cup
@@ -90,7 +97,9 @@ PipeFails(r) ==
     IF r.invalid = 1
     THEN \* an invalid argument must be reported when the pipeline is built: an error, not a panic, not a pipeline
          Fails("build_error", r.built = 0 /\ r.panic = 0)
-    ELSE Fails("build", r.built = 1) \cup
+    \* a zoom filter that can select nothing (min > max, or a limit beyond level 31) may just as well be REPORTED as an invalid
+    \* argument when the pipeline is built: for such programs a clean build error is accepted
+    ELSE Fails("build", r.built = 1 \/ (Degenerate(t) /\ r.panic = 0)) \cup
          (IF r.built = 0 THEN {} ELSE
           Fails("declared", r.declared.tc = Decl(t, S)) \cup
           Fails("coverage", \A z \in 0..r.maxlevel : CovAt(r.cov, z) = CovOf(t, S, z)) \cup
